@@ -1,17 +1,17 @@
 CONSTANTS
-  Creators = {"p1"}
+  Creators = {"p1", "p3"}
   Signers = {"c1", "k1"}
-  CUs = {60, 150}
-  Sessions = {1, 2}
-  Muts = {"none", "qzero", "badge"}
+  CUs = {60, 150, 1000000, 1000002}
+  Sessions = {1, 2, 3}
+  Muts = {"none", "qzero", "badge", "lava"}
   Muts2 = {"none", "lava", "badge"}
   MaxRelays = 2
   EpochsToSave = 1
   MaxEpoch = 2
   MaxOps = 2
   GenHist = FALSE
-  F2Fixed = FALSE
-  CuGuard = FALSE
+  F2Fixed = TRUE
+  CuGuard = TRUE
   Profile = ""
 INIT Init
 NEXT Next
